@@ -245,5 +245,5 @@ package arvados
 // SignManifest's per-token function: a block locator token is re-signed after
 // its old permission hint was stripped; every other token is returned unchanged.
 //@ func SignManifest$1 property C07
-//@   calls SignLocator#1: requires matches(tok, `^[0-9a-f]{32}.*`) && $1 == apiToken && $2 == expiry && $3 == ttl && $4 == permissionSecret
-//@   ensures !matches(tok, `^[0-9a-f]{32}.*`) ==> result == tok
+//@   calls SignLocator#1: requires matches(tok, `(?s)^[0-9a-f]{32}.*`) && $1 == apiToken && $2 == expiry && $3 == ttl && $4 == permissionSecret
+//@   ensures !matches(tok, `(?s)^[0-9a-f]{32}.*`) ==> result == tok
